@@ -276,7 +276,7 @@ def _const_col(Fm, fr, col):
         val = val[1]
     if val[0] == "lit":
         return val[1]
-    if val[0] == "call" and val[1] == ("global", "int") and val[2] and val[2][0][0] == "lit":
+    if val[0] == "call" and val[1] == ("global", "int") and val[2] and val[2][0][0] in ("lit", "const"):
         return int(val[2][0][1])
     return None
 
